@@ -3,12 +3,12 @@ from . import msgs_common as MC
 
 ID = 'C03'
 PKG = 'pkg/dialects/common'
-HARNESS_FILES = []
+HARNESS_FILES = ['pkg/message/zz_verif_c03.go']
 ALLOW = MC.ALLOW
 INITS = MC.INITS
 OPTIONS = {}
 TAG_FILTER = ('C03/',)
-SLICE_S = 5
+SLICE_S = 3
 OBS_SAMPLES = 1
 MAX_VALIDATE = 60
 NATIVE_PKGS_MAX = 3
@@ -19,15 +19,22 @@ _state = {}
 def prepare(tier, work):
     p = MC.prepare(tier, work, 'M')
     _state['msgs'] = p['msgs']
+    return prepare_groups(p)
+
+
+def prepare_groups(p):
+    p['groups'].append({'name': 'pkg/message', 'pkgs': ['pkg/message'], 'roots': [r'message\.verifHarness_C03_order']})
     return p
 
 
 def tasks(tier):
-    return MC.m_tasks(_state['msgs'], tier)
+    from gosym.check import Task
+    return MC.m_tasks(_state['msgs'], tier) + [Task('verifHarness_C03_order', [], {'sort_lemma': True, 'sort_lemma_types': [1, 4, 7, 9, 11] if tier == 'quick' else None},
+                                                  pkg='pkg/message', group='pkg/message')]
 
 
 def required_reach(tier):
-    return ['M']
+    return ['M', 'C03/order']
 
 
 def bounds(tier):
@@ -37,12 +44,13 @@ def bounds(tier):
                 '; plus declared length + 1 for single-string messages up to char[32]' if tier == 'quick'
                 else '; lengths 0, 1, declared, declared+1 for single-string messages (<= 2 otherwise)'),
             'v2_truncation': 'trailing-zero classes: none / all zero / exactly one / (thorough: exactly two; unconstrained for messages <= 64 bytes)',
+            'order_lemma': 'the real comparator closure of Initialize on three field descriptors with type in ' + ('{double, float, uint16, uint8, char}' if tier == 'quick' else 'all 11 field types') + ' (forked), symbolic index and extension flag '
+                           '(extensions after base fields): strict total order equal to the MAVLink order; unbounded in the number of fields',
             'crc_extra_and_sizes': 'ground obligations: CRC_EXTRA constant and layout length compared with the values an independent '
                                    'implementation of the MAVLink rules (checks/gen_msgs.py) derives from the struct declaration'}
 
 
 OUTSIDE = ['user-defined structs other than the shipped ones and the harness dialect of C02/C08/C09 (reflection over a symbolic type is out of reach)',
-           'the sort comparator lemma (strict total order = spec order for any struct with extensions after base fields) is not mechanised in this run',
            'structs larger than 255 bytes']
 STUBS = ['message.(*ReadWriter).Initialize/Read/Write executed from real SSA; reflect.* as intrinsics over the static type table; '
          'regexp/strings/strconv/sort.Slice intrinsics on concrete arguments', 'real x25 executed concretely for CRC_EXTRA']
